@@ -1,3 +1,4 @@
+#![allow(deprecated)]
 //! C16: descriptors map to the standard output scripts, addresses and derived keys.
 //! Oracles: output templates from BIP-13/16/141/143/341, oracle::bip32, Address::from_script.
 
